@@ -59,6 +59,8 @@ func (o op) String() string {
 		return fmt.Sprintf("U%d", o.T)
 	case 'G':
 		return "G"
+	case 'R':
+		return "R"
 	case 'A':
 		return fmt.Sprintf("A%d", o.N)
 	case 'S':
@@ -102,6 +104,8 @@ func parseOps(s string) []op {
 			out = append(out, op{K: 'U', T: ints()[0]})
 		case 'G':
 			out = append(out, op{K: 'G'})
+		case 'R':
+			out = append(out, op{K: 'R'})
 		case 'A', 'S':
 			out = append(out, op{K: f[0], N: ints()[0]})
 		default:
@@ -593,6 +597,18 @@ func runCase(g *dag.Graph, ops []op, seed uint64) {
 			expStrays[o.N] = true
 			everStray[o.N] = true
 			kind = "stray"
+		case 'R':
+			// reopen: a new Store on the same directory; everything observable must be as before
+			// (generated right after GC only); AutoGC is the default again
+			ns, nerr := oci.New(root)
+			if nerr != nil {
+				err = nerr
+			} else {
+				store = ns
+				w.store = ns
+			}
+			tr.autogc = true
+			kind = "reopen"
 		case 'D':
 			err, hung = w.guarded(func(c context.Context) error { return store.Delete(c, g.Nodes[o.N].Desc) })
 			kind = "delete"
@@ -851,6 +867,14 @@ func execOnly(g *dag.Graph, ops []op) (string, bool) {
 			os.MkdirAll(filepath.Dir(p), 0o755)
 			os.WriteFile(p, []byte(fmt.Sprintf("stray %d", o.N)), 0o644)
 			strays[o.N] = true
+		case 'R':
+			ns, nerr := oci.New(root)
+			if nerr != nil {
+				err = nerr
+			} else {
+				store = ns
+				w.store = ns
+			}
 		case 'D':
 			err, hung = w.guarded(func(c context.Context) error { return store.Delete(c, g.Nodes[o.N].Desc) })
 		case 'G':
@@ -960,6 +984,10 @@ func genCase(r *common.Rand) (*dag.Graph, []op) {
 			ops = append(ops, op{K: 'D', N: n})
 		case x < 50:
 			ops = append(ops, op{K: 'G'})
+			if keepLiveDigests && r.Chance(1, 3) {
+				// GC saves index.json on this tree: reopen and carry on
+				ops = append(ops, op{K: 'R'})
+			}
 		case x < 65:
 			if len(taggable) == 0 {
 				continue
@@ -977,6 +1005,9 @@ func genCase(r *common.Rand) (*dag.Graph, []op) {
 	}
 	if r.Chance(1, 2) {
 		ops = append(ops, op{K: 'G'})
+		if keepLiveDigests && r.Chance(1, 3) {
+			ops = append(ops, op{K: 'R'})
+		}
 	}
 	return g, ops
 }
